@@ -395,7 +395,9 @@ func (g *qgen) document(root *selset) []gen.Tok {
 		if len(g.varOrder) > 0 {
 			op = append(op, p("("))
 			for _, v := range g.varOrder {
-				op = append(op, p("$"), nm(v), p(":"))
+				vd := p("$")
+				vd.Mark = "VD:" + v // start of the VariableDefinition node
+				op = append(op, vd, nm(v), p(":"))
 				t := g.vars[v]
 				if t[len(t)-1] == '!' {
 					op = append(op, nm(t[:len(t)-1]), p("!"))
@@ -435,7 +437,7 @@ func newDoc(r *hx.Rng, exec bool) (*qgen, *selset) {
 }
 
 var faultKinds = []string{"unknownField", "unknownArg", "undefinedVar", "unknownFragment", "leafSubselection",
-	"missingSubselection", "unknownDirective", "unknownTypeCondition", "missingRequiredArg", "duplicateArg"}
+	"missingSubselection", "unknownDirective", "unknownTypeCondition", "missingRequiredArg", "duplicateArg", "variablePosition"}
 
 // fault builds one invalid selection for the given scope; the tokens marked E0, E1 (and OP for undefinedVar) are the
 // starts of the nodes the validator must report, in that order.
@@ -452,10 +454,16 @@ func (g *qgen) fault(kind string, sc scope, r *hx.Rng) (*item, []string, string)
 	if sc == scNamed && (kind == "missingSubselection" || kind == "missingRequiredArg" || kind == "duplicateArg") {
 		kind = "unknownField"
 	}
+	if sc == scNamed && kind == "variablePosition" {
+		kind = "unknownField"
+	}
 	if sc == scUnion && kind != "unknownFragment" && kind != "unknownTypeCondition" {
 		kind = "unknownField" // a union has no fields to hang the other faults on
 	}
 	switch kind {
+	case "variablePosition":
+		// nullable $v: Int in the position of r: Int! -> VariablesInAllowedPosition names the variable definition, then the usage
+		return &item{head: []gen.Tok{nm(k), p(":"), nm("b"), p("("), nm("r"), p(":"), mark(p("$"), "E0"), g.useVar("v", "Int"), p(")")}}, []string{"VD:v", "E0"}, kind
 	case "unknownArg":
 		switch {
 		case sc == scNamed || r.Chance(1, 3):
@@ -508,4 +516,127 @@ func (g *qgen) fault(kind string, sc scope, r *hx.Rng) (*item, []string, string)
 		it.sub = &selset{sc: sc, items: []*item{{head: []gen.Tok{nm("f")}}}}
 	}
 	return it, []string{"E0"}, "unknownField"
+}
+
+// cycleDoc builds a document whose fragments contain exactly one spread cycle C0 -> C1 -> ... -> C(n-1) -> C0 (n = 1..3) and, inside
+// the fragments on the cycle, further spreads that are NOT on the cycle and are never part of the reported path: leaf fragments
+// (defined before or after, hence already visited or not when the cycle fragment is examined), a two-step acyclic chain, unknown
+// names. Optionally an acyclic fragment P outside the cycle enters it at some Cj. NoFragmentCycles must report ONE error whose
+// locations are the n spreads on the cycle in path order starting at the fragment through which the depth-first search (fragment
+// definitions in document order) first enters the cycle; each unknown name adds one KnownFragmentNames error at the name.
+// Returns the tokens and the expected location lists as marks.
+func cycleDoc(r *hx.Rng) ([]gen.Tok, [][]string) {
+	n := r.Range(1, 3)
+	alias := 0
+	fieldTok := func() []gen.Tok {
+		alias++
+		return []gen.Tok{nm(fmt.Sprintf("k%d", alias)), p(":"), nm("f")}
+	}
+	type def struct {
+		name string
+		toks []gen.Tok
+		cyc  int // index on the cycle or -1
+	}
+	var defs []def
+	var expect [][]string
+	leafUsed := map[string]bool{}
+	unk := 0
+	extra := func() []gen.Tok {
+		switch r.Intn(4) {
+		case 0:
+			leafUsed["L0"] = true
+			return []gen.Tok{p("..."), nm("L0")}
+		case 1:
+			leafUsed["L1"] = true
+			leafUsed["L0"] = true
+			return []gen.Tok{p("..."), nm("L1")}
+		case 2:
+			leafUsed["L2"] = true
+			return []gen.Tok{p("..."), nm("L2")}
+		default:
+			t := nm(fmt.Sprintf("Nope%d", unk))
+			t.Mark = fmt.Sprintf("UNK%d", unk)
+			expect = append(expect, []string{t.Mark})
+			unk++
+			return []gen.Tok{p("..."), t}
+		}
+	}
+	body := func(cycleSpread []gen.Tok) []gen.Tok {
+		var parts [][]gen.Tok
+		for i := r.Intn(3); i > 0; i-- {
+			parts = append(parts, fieldTok())
+		}
+		for i := r.Intn(3); i > 0; i-- {
+			parts = append(parts, extra())
+		}
+		if cycleSpread != nil {
+			parts = append(parts, cycleSpread)
+		}
+		if len(parts) == 0 {
+			parts = append(parts, fieldTok())
+		}
+		for i := len(parts) - 1; i > 0; i-- {
+			j := r.Intn(i + 1)
+			parts[i], parts[j] = parts[j], parts[i]
+		}
+		out := []gen.Tok{p("{")}
+		for _, pt := range parts {
+			out = append(out, pt...)
+		}
+		return append(out, p("}"))
+	}
+	for i := 0; i < n; i++ {
+		sp := p("...")
+		sp.Mark = fmt.Sprintf("CY%d", i)
+		d := def{name: fmt.Sprintf("C%d", i), cyc: i}
+		d.toks = append([]gen.Tok{nm("fragment"), nm(d.name), nm("on"), nm("Obj")}, body([]gen.Tok{sp, nm(fmt.Sprintf("C%d", (i+1)%n))})...)
+		defs = append(defs, d)
+	}
+	enterVia := -1
+	if r.Chance(1, 3) {
+		enterVia = r.Intn(n)
+		d := def{name: "P", cyc: -1}
+		d.toks = append([]gen.Tok{nm("fragment"), nm("P"), nm("on"), nm("Obj")}, body([]gen.Tok{p("..."), nm(fmt.Sprintf("C%d", enterVia))})...)
+		defs = append(defs, d)
+	}
+	// the leaves are always defined (and used from the operation, so that NoUnusedFragments stays silent)
+	defs = append(defs, def{name: "L0", cyc: -1, toks: append([]gen.Tok{nm("fragment"), nm("L0"), nm("on"), nm("Obj"), p("{")}, append(fieldTok(), p("}"))...)})
+	defs = append(defs, def{name: "L1", cyc: -1, toks: append([]gen.Tok{nm("fragment"), nm("L1"), nm("on"), nm("Obj"), p("{")}, append(append(fieldTok(), p("..."), nm("L0")), p("}"))...)})
+	defs = append(defs, def{name: "L2", cyc: -1, toks: append([]gen.Tok{nm("fragment"), nm("L2"), nm("on"), nm("Obj"), p("{")}, append(fieldTok(), p("}"))...)})
+	// operation: reaches every fragment
+	op := []gen.Tok{p("{"), nm("o"), p("{"), p("..."), nm("C0"), p("..."), nm("L1"), p("..."), nm("L2")}
+	if enterVia >= 0 {
+		op = append(op, p("..."), nm("P"))
+	}
+	op = append(op, p("}"), p("}"))
+	// document order: random; the operation anywhere
+	for i := len(defs) - 1; i > 0; i-- {
+		j := r.Intn(i + 1)
+		defs[i], defs[j] = defs[j], defs[i]
+	}
+	opAt := r.Intn(len(defs) + 1)
+	var toks []gen.Tok
+	entry := -1
+	for i, d := range defs {
+		if i == opAt {
+			toks = append(toks, op...)
+		}
+		toks = append(toks, d.toks...)
+		if entry < 0 {
+			if d.cyc >= 0 {
+				entry = d.cyc
+			} else if d.name == "P" {
+				entry = enterVia
+			}
+		}
+	}
+	if opAt == len(defs) {
+		toks = append(toks, op...)
+	}
+	var cyc []string
+	for i := 0; i < n; i++ {
+		cyc = append(cyc, fmt.Sprintf("CY%d", (entry+i)%n))
+	}
+	expect = append(expect, cyc)
+	return toks, expect
 }
